@@ -397,5 +397,13 @@ FpxKnownKey(e) ==
                 /\ e.err = 0 /\ e.code = 0 /\ e.unch /\ CanonAll(e, e.c)
                 /\ BMod(P(e), <<3>>) = <<2>> /\ e.k % e.lvl # 0
             -> "C10-frb-p-2-mod-3"
+         \* fp8_mul_dxs in builds whose prime leaves spare bits in the top digit (FP_PRIME = 381, FP_QNRES):
+         \* fp4_mul_dxs_unr multiplies a full double-length product by the non-residue with fp2_norh_low, which
+         \* adds without the carry handling of fp2_nord_low; for about 1 in 18 random operands a coefficient
+         \* comes out wrong (c[1][0]) or not reduced below p (c[0][1])
+      [] e.f = "mul_dxs" /\ e.lvl = 8 /\ Len(e.a) = 8 /\ Len(e.b) = 8 /\ Len(e.c) = 8
+                /\ e.err = 0 /\ e.code = 0 /\ e.unch /\ CanonAll(e, e.a) /\ CanonAll(e, e.b)
+                /\ BBits(P(e)) % (8 * e.w) # 0 /\ (\A i \in DxsZero(e) : BNorm(e.b[i]) = <<>>)
+            -> "C10-fp8-mul-dxs-lazy-room"
       [] OTHER -> ""
 =============================================================================
